@@ -70,7 +70,11 @@ def build_and_validate_headers(headers: Iterable[Tuple[bytes, bytes]]) -> List[T
     for name, value in headers:
         if name[0] == b":"[0]:
             raise ValueError("Pseudo headers are not valid")
-        validated_headers.append((bytes(name).strip(), bytes(value).strip()))
+        name, value = bytes(name).strip(), bytes(value).strip()
+        if any(char in b"\r\n\x00" for char in name + value):
+            # Otherwise the client could be sent additional (injected) headers
+            raise ValueError("Header names and values must not contain CR, LF, or NUL")
+        validated_headers.append((name, value))
     return validated_headers
 
 
